@@ -413,6 +413,31 @@ theorem fold_perm_sortedLKeys {l₁ l₂ : List LKey} (p : l₁.Perm l₂) : sor
   sort_canonical_less cmp_total_listenerKeys (isort_isSort_less cmp_total_listenerKeys)
     (keysDistinct_of_injective _ (fun a b h => by cases a; cases b; simp at h; simp [h]) l₁) p
 
+/-! ### From canonical listings to deterministic generation (the shape of the argument) -/
+
+/-- The property at full strength, for an abstract generator `gen` that receives the objects in the
+    order some store or registry listed them: every listing of the same objects gives the same
+    output.  For the real generators this is NOT proved - it is what the permutation harness
+    explores (stream `perm`). -/
+def FullStatement {α β : Type} (gen : List α → β) : Prop :=
+  ∀ l₁ l₂ : List α, l₁.Perm l₂ → gen l₁ = gen l₂
+
+/-- The part that is proved: a generator that looks at its input only through a sort with a
+    comparator that is total on the (pairwise distinct) keys of the objects satisfies the full
+    statement on such inputs.  What remains for a real generator is that *every* path from a listing
+    or a map to the output goes through such a sort (or through an order-independent fold). -/
+theorem generation_deterministic_partial {α κ β : Type} {cmp : α → α → Ordering} {key : α → κ}
+    (h : TotalOnKey cmp key) {sort : List α → List α} (hs : IsSort (ltOf cmp) sort)
+    (g : List α → β) {l₁ l₂ : List α} (hd : KeysDistinct key l₁) (p : l₁.Perm l₂) :
+    g (sort l₁) = g (sort l₂) := by
+  rw [sort_canonical_key h hs hd p]
+
+/-- Without the sort the full statement fails already for the identity generator. -/
+theorem fullStatement_witness : ¬ FullStatement (fun l : List Nat => l) := by
+  intro h
+  have := h [1, 2] [2, 1] (List.Perm.swap 2 1 [])
+  exact absurd this (by decide)
+
 /-! ### The monitor of the permutation harness -/
 
 /-- Soundness and completeness of the monitor: it accepts exactly when all runs produced the same
